@@ -141,7 +141,7 @@ func (c Int16) POW(a, k Int16) Int16 {
 /* -------------------------------------------------------------------------- */
 func (c Int16) SQRT(a Int16) Int16 {
   x := a.GetFloat64()
-  c.SetFloat64(math.Sqrt(x))
+  c.SetFloat64(math.Pow(x, 0.5))
   return c
 }
 /* -------------------------------------------------------------------------- */
